@@ -21,6 +21,13 @@ RunEv(e) ==
               e.alg = "nsga2" => \A t \in 1..(Len(e.gens) - 1) : ElitistStep(e.gens[t], e.gens[t + 1]))
     /\ Clause("best-cost-never-worse",
               (e.alg = "nsga2" /\ e.single /\ e.unconstrained) => \A t \in 1..(Len(e.gens) - 1) : BestCost(e.gens[t + 1]) <= BestCost(e.gens[t]))
+\* Extension (not a listed property): PSOGA as it actually behaves -- named deviation "GrowingSwarm": every generation appends the two
+\* GA offspring to the swarm, so generation t (0..G) has N + 2t members and the run spends N + sum_{t=1..G} (N + 2t) evaluations
+PsogaEv(e) ==
+    /\ Clause("no-exception", e.exc = "")
+    /\ Clause("psoga-generation-tags", e.tags = [ i \in 1..(e.g + 1) |-> i - 1 ])
+    /\ Clause("psoga-generation-sizes", e.sizes = [ i \in 1..(e.g + 1) |-> e.n + 2 * (i - 1) ])
+    /\ Clause("psoga-evaluation-budget", e.nevalok = e.n + e.g * e.n + e.g * (e.g + 1))
 PopAcceptEv(e) ==
     /\ Clause("no-exception", e.exc = "")
     /\ Clause("population-keeps-its-size", Len(e.after) = Len(e.pop))
@@ -29,6 +36,7 @@ TInit == tid \in 1..Len(Traces) /\ l = 1
 TNext == /\ l <= Len(Traces[tid])
          /\ CASE Ev.ev = "run"       -> RunEv(Ev)
               [] Ev.ev = "popaccept" -> PopAcceptEv(Ev)
+              [] Ev.ev = "psoga"     -> PsogaEv(Ev)
               [] OTHER -> Clause("known-event", FALSE)
          /\ l' = l + 1 /\ UNCHANGED tid
 TDone == l = Len(Traces[tid]) + 1
